@@ -59,6 +59,7 @@ NO_PANIC_EXACT = {
     "std::slice::<impl [T]>::to_vec", "std::vec::Vec::<T, A>::len",
     # growth panics only on capacity overflow (> isize::MAX bytes), unreachable before allocation failure (out of scope)
     "core::bool::<impl bool>::then", "core::bool::<impl bool>::then_some", "std::option::Option::<T>::ok_or_else", "std::option::Option::<T>::unwrap_or_else", "std::option::Option::<T>::map_or_else", "std::option::Option::<T>::and_then", "std::option::Option::<T>::filter", "std::option::Option::<T>::copied", "std::result::Result::<T, E>::map_or", "std::result::Result::<T, E>::unwrap_or", "std::result::Result::<T, E>::unwrap_or_else", "std::result::Result::<T, E>::or_else",
+    "std::convert::num::ptr_try_from_impls::<impl std::convert::TryFrom<usize> for u8>::try_from", "std::convert::num::ptr_try_from_impls::<impl std::convert::TryFrom<usize> for u16>::try_from", "std::convert::num::ptr_try_from_impls::<impl std::convert::TryFrom<usize> for u32>::try_from", "std::convert::TryFrom::try_from",
     "std::ops::RangeInclusive::<Idx>::new", "std::ops::RangeInclusive::<Idx>::contains", "std::ops::Range::<Idx>::contains", "std::ops::RangeInclusive::<Idx>::start", "std::ops::RangeInclusive::<Idx>::end", "std::mem::replace", "core::mem::replace", "std::mem::take", "core::mem::take", "std::mem::swap", "core::mem::swap", "std::array::from_fn", "core::array::from_fn", "std::iter::ExactSizeIterator::len", "std::mem::size_of", "core::mem::size_of", "std::vec::Vec::<T>::new", "std::vec::Vec::<T, A>::extend_from_slice", "std::vec::Vec::<T, A>::push", "std::vec::Vec::<T, A>::as_slice", "std::vec::Vec::<T, A>::is_empty",
     "<digest::generic_array::GenericArray<T, N> as std::ops::Deref>::deref", "<std::vec::Vec<T, A> as std::ops::Deref>::deref", "<std::vec::Vec<T, A> as std::ops::DerefMut>::deref_mut",
     "std::clone::Clone::clone", "std::default::Default::default",
@@ -66,7 +67,7 @@ NO_PANIC_EXACT = {
 NO_PANIC_PREFIX = (
     "<&u8 as std::ops::BitXor", "<u8 as std::ops::BitXor", "<&u8 as std::ops::BitAnd", "<u8 as std::ops::BitAnd", "<&u8 as std::ops::BitOr", "<u8 as std::ops::BitOr", "<std::iter::Zip<", "<std::slice::ChunksExact<",
     "std::convert::num::<impl std::convert::From<", "core::convert::num::<impl std::convert::From<", "<std::iter::Map<", "<std::iter::TakeWhile<", "<std::iter::Rev<", "<std::iter::Take<", "<std::iter::Chain<", "<std::iter::Copied<", "<std::iter::Cloned<", "<std::slice::ChunksExact<", "<std::ops::Range<", "std::iter::range::<impl std::iter::Iterator for std::ops::Range<",
-    "core::num::<impl u", "core::num::<impl i", "std::char::methods::<impl char>::", "<std::slice::Iter", "<std::slice::IterMut", "<std::iter::Enumerate<", "<std::iter::Zip<", "<std::iter::StepBy<", "<std::iter::Skip<",
+    "std::convert::num::ptr_try_from_impls::", "std::convert::num::<impl std::convert::TryFrom<", "core::convert::num::<impl std::convert::TryFrom<", "core::num::<impl u", "core::num::<impl i", "std::char::methods::<impl char>::", "<std::slice::Iter", "<std::slice::IterMut", "<std::iter::Enumerate<", "<std::iter::Zip<", "<std::iter::StepBy<", "<std::iter::Skip<",
     "num_bigint::bigint::addition::", "num_bigint::bigint::subtraction::", "num_bigint::bigint::multiplication::", "num_bigint::bigint::convert::",
 )
 # methods of the prefix-allowed impls (integers, char, iterator adaptors) that DO have a documented
